@@ -1,5 +1,8 @@
 import GoSSE.Gen.Root
 import GoSSE.Model.Parser
+import GoSSE.Model.Fields
+import GoSSE.Model.Queue
+import GoSSE.Proofs.ParserRange
 /-!
 # The generated layer computes the hand-written model
 
@@ -221,5 +224,500 @@ theorem getFieldName_eq (fuel : Nat) (b : Bytes) :
   have e4 : (b == fId) = false := by simpa using h4
   simp only [fData, fEvent, fRetry, fId] at e1 e2 e3 e4 h1 h2 h3 h4
   simp [e1, e2, e3, e4, h1, h2, h3, h4, fData, fEvent, fRetry, fId, pure, Except.pure]
+
+theorem isSingleLine_eq (fuel : Nat) (p : Bytes) (hf : p.length < fuel) :
+    Gen.isSingleLine fuel p = .ok (isSingleLine p) := by
+  unfold Gen.isSingleLine isSingleLine
+  simp only [bind, Except.bind, NewlineIndex_eq fuel p hf, pure, Except.pure, Except.ok.injEq]
+  by_cases h0 : (newlineIndex p).2 = 0
+  · simp [h0]
+  · have : ((newlineIndex p).2 : Int) ≠ 0 := by omega
+    rw [beq_eq_false_iff_ne.mpr this, beq_eq_false_iff_ne.mpr h0]
+
+theorem any_take_succ {α} (l : List α) (p : α → Bool) (i : Nat) (h : i < l.length) :
+    (l.take (i + 1)).any p = ((l.take i).any p || p l[i]) := by
+  rw [List.take_succ_eq_append_getElem h, List.any_append]; simp
+
+theorem topicsIntersect_loop2_eq (fuel : Nat) (at' : Bytes) (b : List Bytes) (hf : b.length < fuel) :
+    loopM (Gen.topicsIntersect_loop2 fuel at' b) fuel (0 : Int) =
+      .ok (if b.any (fun bt => at' == bt) then .inr true else .inl (b.length : Int)) := by
+  have h := loopM_rule (Gen.topicsIntersect_loop2 fuel at' b)
+    (fun st => ∃ i : Nat, st = (i : Int) ∧ i ≤ b.length ∧ (b.take i).any (fun bt => at' == bt) = false)
+    (fun st => b.length - st.toNat)
+    (fun r => r = (if b.any (fun bt => at' == bt) then .inr true else .inl (b.length : Int)))
+    (by
+      rintro st ⟨i, rfl, hle, hno⟩
+      unfold Gen.topicsIntersect_loop2
+      by_cases hlt : i < b.length
+      · have c1 : ((i : Int) < len b) := by unfold len; omega
+        simp only [c1, if_true, idx_ok b i hlt, bind, Except.bind]
+        by_cases heq : at' == b[i]
+        · simp only [heq, if_true, pure, Except.pure]
+          have : b.any (fun bt => at' == bt) = true := by
+            rw [List.any_eq_true]; exact ⟨b[i], List.getElem_mem hlt, heq⟩
+          simp [this]
+        · have heq' : (at' == b[i]) = false := Bool.eq_false_iff.mpr heq
+          simp only [heq', if_false, pure, Except.pure, Bool.false_eq_true]
+          refine ⟨⟨i + 1, by omega, by omega, ?_⟩, by simp; omega⟩
+          rw [any_take_succ b _ i hlt, hno, heq']; rfl
+      · have c1 : ¬ ((i : Int) < len b) := by unfold len; omega
+        simp only [c1, if_false, pure, Except.pure]
+        have : i = b.length := by omega
+        subst this
+        rw [List.take_length] at hno
+        simp [hno])
+    fuel (0 : Int) ⟨0, rfl, by omega, by simp⟩ (by simpa using hf)
+  obtain ⟨r, hr, hp⟩ := h
+  rw [hr, hp]
+
+theorem topicsIntersect_eq (fuel : Nat) (a b : List Bytes) (hfa : a.length < fuel) (hfb : b.length < fuel) :
+    Gen.topicsIntersect fuel a b = .ok (topicsIntersect a b) := by
+  have h := loopM_rule (Gen.topicsIntersect_loop1 fuel b a)
+    (fun st => ∃ i : Nat, st = (i : Int) ∧ i ≤ a.length ∧
+      (a.take i).any (fun at' => b.any fun bt => at' == bt) = false)
+    (fun st => a.length - st.toNat)
+    (fun r => r = (if topicsIntersect a b then .inr true else .inl (a.length : Int)))
+    (by
+      rintro st ⟨i, rfl, hle, hno⟩
+      unfold Gen.topicsIntersect_loop1
+      by_cases hlt : i < a.length
+      · have c1 : ((i : Int) < len a) := by unfold len; omega
+        simp only [c1, if_true, idx_ok a i hlt, bind, Except.bind, topicsIntersect_loop2_eq fuel a[i] b hfb]
+        by_cases hin : b.any (fun bt => a[i] == bt)
+        · simp only [hin, if_true, pure, Except.pure]
+          have : topicsIntersect a b = true := by
+            unfold topicsIntersect
+            rw [List.any_eq_true]; exact ⟨a[i], List.getElem_mem hlt, hin⟩
+          simp [this]
+        · have hin' : b.any (fun bt => a[i] == bt) = false := Bool.eq_false_iff.mpr hin
+          simp only [hin', Bool.false_eq_true, if_false, pure, Except.pure]
+          refine ⟨⟨i + 1, by omega, by omega, ?_⟩, by simp; omega⟩
+          rw [any_take_succ a _ i hlt, hno, hin']; rfl
+      · have c1 : ¬ ((i : Int) < len a) := by unfold len; omega
+        simp only [c1, if_false, pure, Except.pure]
+        have : i = a.length := by omega
+        subst this
+        rw [List.take_length] at hno
+        unfold topicsIntersect
+        simp [hno])
+    fuel (0 : Int) ⟨0, rfl, by omega, by simp⟩ (by simpa using hfa)
+  obtain ⟨r, hr, hp⟩ := h
+  unfold Gen.topicsIntersect
+  simp only [bind, Except.bind, pure, Except.pure]
+  rw [hr, hp]
+  by_cases ht : topicsIntersect a b <;> simp [ht]
+
+theorem newlineIndex_pos (s : Bytes) (h : s ≠ []) : 0 < (newlineIndex s).1 + (newlineIndex s).2 := by
+  cases s with
+  | nil => exact absurd rfl h
+  | cons b t =>
+    rw [ni_cons]
+    split
+    · simp; split <;> omega
+    · simp; omega
+
+/-- one iteration of `splitFunc`'s loop, as the model's `splitLoop` does it -/
+def splitStep (data : Bytes) (adv st : Nat) : Step (Int × Int) (Int × Option Bytes × Option String) :=
+  let r := newlineIndex (data.drop adv)
+  let adv' := adv + r.1 + r.2
+  let st' := if r.1 == 0 then st + r.2 else st
+  if adv' == data.length || (isNl ((data.drop adv').headD 0) && decide (r.1 > 0))
+  then .brk ((adv' : Int), (st' : Int)) else .next ((adv' : Int), (st' : Int))
+
+theorem headD_drop (data : Bytes) (i : Nat) (h : i < data.length) : (data.drop i).headD 0 = data[i] := by
+  rw [drop_cons_of_lt data i h]; rfl
+
+theorem splitFunc_loop1_eq (fuel : Nat) (data : Bytes) (hf : data.length < fuel) (adv st : Nat)
+    (ha : adv < data.length) :
+    Gen.splitFunc_loop1 fuel data ((adv : Int), (st : Int)) = .ok (splitStep data adv st) := by
+  have hb := newlineIndex_bound (data.drop adv)
+  have hl : (data.drop adv).length = data.length - adv := by simp
+  have hfr : (data.drop adv).length < fuel := by omega
+  unfold Gen.splitFunc_loop1 splitStep
+  simp only [bind, Except.bind, sliceFrom_ok data adv (by omega), NewlineIndex_eq fuel _ hfr, pure, Except.pure, len]
+  generalize hr : newlineIndex (data.drop adv) = r at hb ⊢
+  have eadv : ((adv : Int) + ((r.1 : Int) + (r.2 : Int))) = ((adv + r.1 + r.2 : Nat) : Int) := by omega
+  have est : ((st : Int) + (r.2 : Int)) = ((st + r.2 : Nat) : Int) := by omega
+  rw [eadv, est]
+  generalize hA : adv + r.1 + r.2 = A at *
+  generalize hS : st + r.2 = S at *
+  by_cases hend : A = data.length
+  · subst hend
+    by_cases h0 : r.1 = 0
+    · simp [h0]
+    · have c0 : ((r.1 : Int) == 0) = false := by simp; omega
+      simp [c0, h0]
+  · have hlt : A < data.length := by omega
+    have c : (((A : Nat) : Int) == ((data.length : Nat) : Int)) = false := by simp; omega
+    have c' : (A == data.length) = false := by simp; omega
+    have hidx := idx_ok data A hlt
+    have hh := headD_drop data A hlt
+    by_cases h0 : r.1 = 0
+    · have cg : ¬ ((r.1 : Int) > 0) := by omega
+      simp [c, c', h0, hidx, isNewlineChar_eq, hh]
+    · have c0 : ((r.1 : Int) == 0) = false := by simp; omega
+      have cg : ((r.1 : Int) > 0) := by omega
+      have cg' : r.1 > 0 := by omega
+      simp only [c, c', c0, Bool.false_eq_true, if_false, hidx, isNewlineChar_eq, cg, decide_true, Bool.and_true,
+        Bool.false_or, hh, cg', h0]
+      by_cases hn : isNl data[A] <;> simp [hn, h0]
+
+theorem splitLoop_eq (fuel : Nat) (data : Bytes) (hf : data.length < fuel) :
+    ∀ (m adv st n : Nat), adv < data.length → data.length - adv ≤ m → m ≤ n →
+      loopM (Gen.splitFunc_loop1 fuel data) n ((adv : Int), (st : Int)) =
+        .ok (.inl (((splitLoop data.length m (data.drop adv) adv st).1 : Int),
+                   ((splitLoop data.length m (data.drop adv) adv st).2 : Int))) := by
+  intro m
+  induction m with
+  | zero => intro adv st n ha hm; omega
+  | succ m ih =>
+    intro adv st n ha hm hn
+    obtain ⟨n', rfl⟩ : ∃ n', n = n' + 1 := ⟨n - 1, by omega⟩
+    have hb := newlineIndex_bound (data.drop adv)
+    have hl : (data.drop adv).length = data.length - adv := by simp
+    have hpos := newlineIndex_pos (data.drop adv) (by
+      intro h; have := congrArg List.length h; simp at this; omega)
+    unfold loopM
+    rw [splitFunc_loop1_eq fuel data hf adv st ha]
+    unfold splitLoop splitStep
+    generalize hr : newlineIndex (data.drop adv) = r at hb hpos ⊢
+    simp only [List.drop_drop]
+    have e1 : adv + (r.1 + r.2) = adv + r.1 + r.2 := by omega
+    rw [e1]
+    by_cases hc : (adv + r.1 + r.2 == data.length || (isNl ((data.drop (adv + r.1 + r.2)).headD 0) && decide (r.1 > 0))) = true
+    · simp only [hc, if_true, pure, Except.pure]
+    · have hc' : (adv + r.1 + r.2 == data.length || (isNl ((data.drop (adv + r.1 + r.2)).headD 0) && decide (r.1 > 0))) = false := by
+        simpa using hc
+      simp only [hc', Bool.false_eq_true, if_false]
+      have hne : adv + r.1 + r.2 ≠ data.length := by
+        intro h; simp [h] at hc'
+      exact ih (adv + r.1 + r.2) _ n' (by omega) (by omega) (by omega)
+
+theorem getD_eq (data : Bytes) (i : Nat) (h : i < data.length) : data.getD i 0 = data[i] := by
+  simp [List.getD_eq_getElem?_getD, h]
+
+theorem splitFunc_eq (fuel : Nat) (data : Bytes) (atEOF : Bool) (hf : data.length < fuel) :
+    Gen.splitFunc fuel data atEOF =
+      .ok (((splitFunc data atEOF).1 : Int), (splitFunc data atEOF).2, none) := by
+  unfold Gen.splitFunc splitFunc
+  by_cases hl0 : data.length = 0
+  · simp [len, hl0, pure, Except.pure]
+  have hpos : 0 < data.length := by omega
+  have hloop := splitLoop_eq fuel data hf (data.length + 1) 0 0 fuel hpos (by omega) (by omega)
+  obtain ⟨hr1, hr2⟩ := GoSSE.Proofs.splitFunc_loop_range data
+  simp only [List.drop_zero] at hloop
+  have e0 : loopM (Gen.splitFunc_loop1 fuel data) fuel ((0 : Int), (0 : Int)) = _ := hloop
+  have c0 : (((data.length : Nat) : Int) == (0 : Int)) = false := by rw [beq_eq_false_iff_ne]; omega
+  have c0' : (data.length == 0) = false := by rw [beq_eq_false_iff_ne]; omega
+  simp only [len, c0, c0', Bool.false_eq_true, if_false, bind, Except.bind, e0, pure, Except.pure]
+  generalize splitLoop data.length (data.length + 1) data 0 0 = R at hr1 hr2 ⊢
+  by_cases hend : R.1 = data.length
+  · have c1 : (((R.1 : Nat) : Int) == ((data.length : Nat) : Int)) = true := by simp [hend]
+    have c1' : (R.1 == data.length) = true := by simp [hend]
+    cases atEOF with
+    | false => simp [c1, c1']
+    | true =>
+      have c2 : ¬ (((R.1 : Nat) : Int) < ((data.length : Nat) : Int)) := by omega
+      have c2' : ¬ (R.1 < data.length) := by omega
+      simp only [c1, c1', Bool.not_true, Bool.and_false, Bool.false_eq_true, if_false, c2, decide_false, c2']
+      rw [slice_ok data R.2 R.1 hr1 hr2]
+  · have hlt : R.1 < data.length := by omega
+    have c1 : (((R.1 : Nat) : Int) == ((data.length : Nat) : Int)) = false := by simp; omega
+    have c1' : (R.1 == data.length) = false := by simp; omega
+    have c2 : (((R.1 : Nat) : Int) < ((data.length : Nat) : Int)) := by omega
+    have ea : ((R.1 : Int) + 1) = ((R.1 + 1 : Nat) : Int) := by omega
+    simp only [c1, c1', Bool.false_and, Bool.false_eq_true, if_false, c2, decide_true, if_true, hlt, ea]
+    by_cases hlt2 : R.1 + 1 < data.length
+    · have c3 : (((R.1 + 1 : Nat) : Int) < ((data.length : Nat) : Int)) := by omega
+      have em : (((R.1 + 1 : Nat) : Int) - 1) = ((R.1 : Nat) : Int) := by omega
+      have em' : R.1 + 1 - 1 = R.1 := by omega
+      simp only [c3, decide_true, if_true, em, em', idx_ok data R.1 hlt, hlt2, Bool.true_and,
+        getD_eq data R.1 hlt, getD_eq data (R.1 + 1) hlt2]
+      by_cases h13 : data[R.1] = 13
+      · simp only [h13, beq_self_eq_true, if_true, idx_ok data (R.1 + 1) hlt2, Bool.true_and]
+        by_cases h10 : data[R.1 + 1] = 10
+        · have ea2 : (((R.1 + 1 : Nat) : Int) + 1) = ((R.1 + 1 + 1 : Nat) : Int) := by omega
+          simp only [h10, beq_self_eq_true, if_true, ea2]
+          rw [slice_ok data R.2 (R.1 + 1 + 1) (by omega) (by omega)]
+        · have : (data[R.1 + 1] == 10) = false := by simpa using h10
+          simp only [this, Bool.false_eq_true, if_false]
+          rw [slice_ok data R.2 (R.1 + 1) (by omega) (by omega)]
+      · have : (data[R.1] == 13) = false := by simpa using h13
+        simp only [this, Bool.false_eq_true, if_false, Bool.false_and]
+        rw [slice_ok data R.2 (R.1 + 1) (by omega) (by omega)]
+    · have c3 : ¬ (((R.1 + 1 : Nat) : Int) < ((data.length : Nat) : Int)) := by omega
+      simp only [c3, decide_false, Bool.false_eq_true, if_false, hlt2, Bool.false_and]
+      rw [slice_ok data R.2 (R.1 + 1) (by omega) (by omega)]
+
+theorem stringsIndexByte_eq (s : Bytes) (c : UInt8) :
+    stringsIndexByte s c = match indexByte s c with | some i => (i : Int) | none => -1 := by
+  unfold stringsIndexByte indexByte
+  by_cases h : List.findIdx (fun x => x == c) s < s.length <;> simp [h]
+
+theorem indexByte_lt (s : Bytes) (c : UInt8) (i : Nat) (h : indexByte s c = some i) : i < s.length := by
+  unfold indexByte at h
+  by_cases h' : List.findIdx (fun x => x == c) s < s.length
+  · simp [h'] at h; rw [← h]; exact h'
+  · simp [h'] at h
+
+/-- a parsed field, as the translated code stores it in `*Field` -/
+def fieldOf (m : Model.Field) : Gen.Field := ⟨nameBytes m.name, m.value⟩
+
+theorem scanSegment_tail (fuel : Nat) (f : Gen.FieldParser) (chunk : Bytes) (out : Gen.Field) (cp : Nat)
+    (hcp : cp ≤ chunk.length) :
+    (do
+      let s ← sliceTo chunk (cp : Int)
+      let r ← Gen.getFieldName fuel s
+      if r.2 then do
+        let out := { out with Name := r.1 }
+        let s2 ← sliceFrom chunk (min ((cp : Int) + 1) (chunk.length : Int))
+        let r2 ← Gen.trimFirstSpace fuel s2
+        let out := { out with Value := r2 }
+        pure (true, f, out)
+      else do
+        if (chunk == ([] : Bytes)) then do
+          let out := { out with Name := ([] : Bytes) }
+          let out := { out with Value := ([] : Bytes) }
+          pure (true, f, out)
+        else do
+          if (((cp : Int) == (0 : Int)) && f.keepComments) then do
+            let out := { out with Name := ([58] : Bytes) }
+            let s3 ← sliceFrom chunk (min (1 : Int) (chunk.length : Int))
+            let r3 ← Gen.trimFirstSpace fuel s3
+            let out := { out with Value := r3 }
+            pure (true, f, out)
+          else do
+            pure (false, f, out) : GoM (Bool × Gen.FieldParser × Gen.Field)) =
+    .ok (match (match getFieldName (chunk.take cp) with
+          | some n => some (Model.Field.mk n (trimFirstSpace (chunk.drop (min (cp + 1) chunk.length))))
+          | none =>
+            if chunk.isEmpty then some ⟨.none, []⟩
+            else if cp == 0 && f.keepComments then some ⟨.comment, trimFirstSpace (chunk.drop (min 1 chunk.length))⟩
+            else none) with
+         | some fld => (true, f, fieldOf fld)
+         | none => (false, f, out)) := by
+  have e1 : min ((cp : Int) + 1) (chunk.length : Int) = ((min (cp + 1) chunk.length : Nat) : Int) := by omega
+  have e2 : min (1 : Int) (chunk.length : Int) = ((min 1 chunk.length : Nat) : Int) := by omega
+  simp only [bind, Except.bind, sliceTo_ok chunk cp hcp, getFieldName_eq, e1, e2]
+  cases hg : getFieldName (chunk.take cp) with
+  | some n =>
+    simp only [if_true, sliceFrom_ok chunk _ (Nat.min_le_right _ _), trimFirstSpace_eq, pure, Except.pure, fieldOf]
+  | none =>
+    simp only [Bool.false_eq_true, if_false]
+    by_cases hce : chunk = []
+    · subst hce; simp [pure, Except.pure, fieldOf, nameBytes]
+    · have c1 : (chunk == ([] : Bytes)) = false := by simpa using hce
+      have c2 : chunk.isEmpty = false := by simpa using hce
+      simp only [c1, c2, Bool.false_eq_true, if_false]
+      by_cases h0 : cp = 0
+      · subst h0
+        cases hk : f.keepComments
+        · simp [pure, Except.pure]
+        · simp [pure, Except.pure, sliceFrom_ok chunk _ (Nat.min_le_right 1 _), trimFirstSpace_eq, fieldOf, nameBytes]
+      · have c3 : (((cp : Nat) : Int) == 0) = false := by rw [beq_eq_false_iff_ne]; omega
+        have c4 : (cp == 0) = false := by rw [beq_eq_false_iff_ne]; omega
+        simp [c3, c4, pure, Except.pure]
+
+theorem scanSegment_eq (fuel : Nat) (f : Gen.FieldParser) (chunk : Bytes) (out : Gen.Field) :
+    Gen.FieldParser_scanSegment fuel f chunk out =
+      .ok (match scanSegment f.keepComments chunk with
+           | some fld => (true, f, fieldOf fld)
+           | none => (false, f, out)) := by
+  unfold Gen.FieldParser_scanSegment scanSegment
+  simp only [stringsIndexByte_eq, len]
+  cases hi : indexByte chunk 58 with
+  | none =>
+    have c1 : ¬ ((-1 : Int) > 5) := by omega
+    simp only [c1, decide_false, Bool.false_eq_true, if_false, beq_self_eq_true, if_true]
+    refine Eq.trans (scanSegment_tail fuel f chunk out chunk.length (Nat.le_refl _)) ?_
+    simp only [List.take_length, Nat.min_eq_right (Nat.le_succ _), List.drop_length]
+    cases hg : getFieldName chunk with
+    | some n => simp [trimFirstSpace]
+    | none =>
+      by_cases hce : chunk = []
+      · subst hce; simp
+      · have c2 : chunk.isEmpty = false := by simpa using hce
+        have c4 : (chunk.length == 0) = false := by
+          rw [beq_eq_false_iff_ne]; intro h; exact hce (List.length_eq_zero_iff.mp h)
+        simp [c2, c4]
+  | some cp =>
+    have hlt := indexByte_lt chunk 58 cp hi
+    simp only [maxFieldNameLength]
+    by_cases h5 : cp > 5
+    · have c1 : (((cp : Nat) : Int) > 5) := by omega
+      simp [c1, h5, pure, Except.pure]
+    · have c1 : ¬ (((cp : Nat) : Int) > 5) := by omega
+      have c2 : (((cp : Nat) : Int) == (-1 : Int)) = false := by rw [beq_eq_false_iff_ne]; omega
+      simp only [c1, decide_false, Bool.false_eq_true, if_false, c2, h5]
+      exact scanSegment_tail fuel f chunk out cp (by omega)
+
+/-- the model state a translated `FieldParser` value stands for (the error is `ErrUnexpectedEOF` or nil) -/
+def absFP (f : Gen.FieldParser) : FP :=
+  { data := f.data, err := f.err.isSome, started := f.started, keepComments := f.keepComments, removeBOM := f.removeBOM }
+
+theorem doRemoveBOM_eq (fuel : Nat) (f : Gen.FieldParser) :
+    ∃ f', Gen.FieldParser_doRemoveBOM fuel f = .ok f' ∧ absFP f' = (absFP f).doRemoveBOM ∧ f'.err = f.err := by
+  unfold Gen.FieldParser_doRemoveBOM FP.doRemoveBOM
+  by_cases hc : (f.removeBOM && !f.started && bom.isPrefixOf f.data) = true
+  · have hp : bom.isPrefixOf f.data = true := by
+      simp only [Bool.and_eq_true] at hc; exact hc.2
+    have hlen : 3 ≤ f.data.length := by
+      have := (List.isPrefixOf_iff_prefix.mp hp).length_le
+      simpa [bom] using this
+    have hc' : (f.removeBOM && !f.started && stringsHasPrefix f.data ([239, 187, 191] : Bytes)) = true := hc
+    have hs : sliceFrom f.data (3 : Int) = .ok (f.data.drop 3) := sliceFrom_ok f.data 3 hlen
+    refine ⟨{ f with data := f.data.drop 3, started := true }, ?_, ?_, rfl⟩
+    · simp only [hc', if_true, bind, Except.bind, hs, pure, Except.pure]
+    · have : ((absFP f).removeBOM && !(absFP f).started && bom.isPrefixOf (absFP f).data) = true := hc
+      simp only [this, if_true]
+      rfl
+  · have hc0 : (f.removeBOM && !f.started && bom.isPrefixOf f.data) = false := Bool.eq_false_iff.mpr hc
+    have hc' : (f.removeBOM && !f.started && stringsHasPrefix f.data ([239, 187, 191] : Bytes)) = false := hc0
+    refine ⟨f, ?_, ?_, rfl⟩
+    · simp only [hc', Bool.false_eq_true, if_false, pure, Except.pure]
+    · have : ((absFP f).removeBOM && !(absFP f).started && bom.isPrefixOf (absFP f).data) = false := hc0
+      simp only [this, Bool.false_eq_true, if_false]
+
+theorem Reset_eq (fuel : Nat) (f : Gen.FieldParser) (data : Bytes) :
+    ∃ f', Gen.FieldParser_Reset fuel f data = .ok f' ∧ absFP f' = (absFP f).reset data ∧ f'.err = none := by
+  obtain ⟨f', h1, h2, h3⟩ := doRemoveBOM_eq fuel { f with data := data, err := none, started := false }
+  refine ⟨f', ?_, ?_, by rw [h3]⟩
+  · unfold Gen.FieldParser_Reset
+    simp only [bind, Except.bind, pure, Except.pure]
+    rw [h1]
+  · rw [h2]; rfl
+
+theorem RemoveBOM_eq (fuel : Nat) (f : Gen.FieldParser) (b : Bool) :
+    ∃ f', Gen.FieldParser_RemoveBOM fuel f b = .ok f' ∧ absFP f' = (absFP f).setRemoveBOM b ∧ f'.err = f.err := by
+  obtain ⟨f', h1, h2, h3⟩ := doRemoveBOM_eq fuel { f with removeBOM := b }
+  refine ⟨f', ?_, ?_, by rw [h3]⟩
+  · unfold Gen.FieldParser_RemoveBOM
+    simp only [bind, Except.bind, pure, Except.pure]
+    rw [h1]
+  · rw [h2]; rfl
+
+theorem nextChunk_rem_lt (s : Bytes) (h : (nextChunk s).2.2 = true) : (nextChunk s).2.1.length < s.length := by
+  have hb := newlineIndex_bound s
+  unfold nextChunk at h ⊢
+  simp only [List.length_drop]
+  have : (newlineIndex s).2 ≠ 0 := by simpa using h
+  omega
+
+/-- what the loop of the translated `FieldParser.Next` leaves, against the model's `FP.next` -/
+def NextRes (out : Gen.Field) (res : (Gen.FieldParser × Gen.Field) ⊕ (Bool × Gen.FieldParser × Gen.Field))
+    (m : Option Model.Field × FP) : Prop :=
+  match m.1 with
+  | some fld => ∃ f', res = .inr (true, f', fieldOf fld) ∧ absFP f' = m.2
+  | none => ∃ f', (res = .inl (f', out) ∨ res = .inr (false, f', out)) ∧ absFP f' = m.2
+
+/-- one iteration of the loop of the translated `FieldParser.Next` -/
+def nextStep (f : Gen.FieldParser) (out : Gen.Field) :
+    Step (Gen.FieldParser × Gen.Field) (Bool × Gen.FieldParser × Gen.Field) :=
+  if f.data = [] then .brk (f, out) else
+  let r := nextChunk f.data
+  if !r.2.2 then .ret (false, { f with started := true, err := some "ErrUnexpectedEOF" }, out)
+  else match scanSegment f.keepComments r.1 with
+    | some fld => .ret (true, { f with started := true, data := r.2.1 }, fieldOf fld)
+    | none => .next ({ f with started := true, data := r.2.1 }, out)
+
+theorem Next_loop1_eq (fuel : Nat) (f : Gen.FieldParser) (out : Gen.Field) (hf : f.data.length < fuel) :
+    Gen.FieldParser_Next_loop1 fuel (f, out) = .ok (nextStep f out) := by
+  unfold Gen.FieldParser_Next_loop1 nextStep
+  by_cases hd : f.data = []
+  · have c1 : (f.data != ([] : Bytes)) = false := by simp [hd]
+    rw [if_pos hd]
+    simp only [c1, Bool.false_eq_true, if_false, pure, Except.pure]
+  · have c1 : (f.data != ([] : Bytes)) = true := by simpa using hd
+    rw [if_neg hd]
+    simp only [c1, if_true, bind, Except.bind, NextChunk_eq fuel f.data hf]
+    by_cases hnl : (nextChunk f.data).2.2 = true
+    · simp only [hnl, Bool.not_true, Bool.false_eq_true, if_false, scanSegment_eq]
+      cases hs : scanSegment f.keepComments (nextChunk f.data).1 with
+      | some fld => simp only [Bool.not_true, Bool.false_eq_true, if_false, pure, Except.pure]
+      | none => simp only [Bool.not_false, if_true, pure, Except.pure]
+    · have hnl' : (nextChunk f.data).2.2 = false := by simpa using hnl
+      simp only [hnl', Bool.not_false, if_true, pure, Except.pure]
+
+theorem Next_loop_eq (fuel : Nat) :
+    ∀ (m n : Nat) (f : Gen.FieldParser) (out : Gen.Field), f.data.length < m → m ≤ n → f.data.length < fuel →
+      ∃ res, loopM (Gen.FieldParser_Next_loop1 fuel) n (f, out) = .ok res ∧ NextRes out res (FP.next m (absFP f)) := by
+  intro m
+  induction m with
+  | zero => intro n f out h; omega
+  | succ m ih =>
+    intro n f out hm hn hf
+    obtain ⟨n', rfl⟩ : ∃ n', n = n' + 1 := ⟨n - 1, by omega⟩
+    unfold loopM
+    rw [Next_loop1_eq fuel f out hf]
+    unfold nextStep
+    by_cases hd : f.data = []
+    · have e : FP.next (m + 1) (absFP f) = (none, absFP f) := by
+        unfold FP.next; simp [absFP, hd]
+      rw [if_pos hd, e]
+      exact ⟨_, rfl, f, Or.inl rfl, rfl⟩
+    · have c2 : (absFP f).data.isEmpty = false := by simpa [absFP] using hd
+      rw [if_neg hd]
+      by_cases hnl : (nextChunk f.data).2.2 = true
+      · have hrem := nextChunk_rem_lt f.data hnl
+        simp only [hnl, Bool.not_true, Bool.false_eq_true, if_false]
+        cases hs : scanSegment f.keepComments (nextChunk f.data).1 with
+        | some fld =>
+          have e : FP.next (m + 1) (absFP f) =
+              (some fld, absFP { f with started := true, data := (nextChunk f.data).2.1 }) := by
+            unfold FP.next
+            simp only [c2, Bool.false_eq_true, if_false]
+            have : (absFP f).data = f.data := rfl
+            simp only [this, hnl, Bool.not_true, Bool.false_eq_true, if_false]
+            have : (absFP f).keepComments = f.keepComments := rfl
+            simp only [this, hs]
+            rfl
+          rw [e]
+          exact ⟨_, rfl, _, rfl, rfl⟩
+        | none =>
+          have e : FP.next (m + 1) (absFP f) =
+              FP.next m (absFP { f with started := true, data := (nextChunk f.data).2.1 }) := by
+            conv => lhs; unfold FP.next
+            simp only [c2, Bool.false_eq_true, if_false]
+            have : (absFP f).data = f.data := rfl
+            simp only [this, hnl, Bool.not_true, Bool.false_eq_true, if_false]
+            have : (absFP f).keepComments = f.keepComments := rfl
+            simp only [this, hs]
+            rfl
+          rw [e]
+          exact ih n' { f with started := true, data := (nextChunk f.data).2.1 } out
+            (by show (nextChunk f.data).2.1.length < m; omega) (by omega)
+            (by show (nextChunk f.data).2.1.length < fuel; omega)
+      · have hnl' : (nextChunk f.data).2.2 = false := by simpa using hnl
+        have e : FP.next (m + 1) (absFP f) =
+            (none, absFP { f with started := true, err := some "ErrUnexpectedEOF" }) := by
+          unfold FP.next
+          simp only [c2, Bool.false_eq_true, if_false]
+          have : (absFP f).data = f.data := rfl
+          simp only [this, hnl', Bool.not_false, if_true]
+          rfl
+        rw [e]
+        simp only [hnl', Bool.not_false, if_true]
+        exact ⟨_, rfl, _, Or.inr rfl, rfl⟩
+
+theorem Next_eq (fuel : Nat) (f : Gen.FieldParser) (out : Gen.Field) (hf : f.data.length + 1 < fuel) :
+    ∃ f' out' ok, Gen.FieldParser_Next fuel f out = .ok (ok, f', out') ∧
+      absFP f' = (FP.next (f.data.length + 1) (absFP f)).2 ∧
+      (match (FP.next (f.data.length + 1) (absFP f)).1 with
+       | some fld => ok = true ∧ out' = fieldOf fld
+       | none => ok = false ∧ out' = out) := by
+  obtain ⟨res, hr, hres⟩ := Next_loop_eq fuel (f.data.length + 1) fuel f out (by omega) (by omega) (by omega)
+  unfold Gen.FieldParser_Next
+  simp only [bind, Except.bind, hr, pure, Except.pure]
+  unfold NextRes at hres
+  cases hm : (FP.next (f.data.length + 1) (absFP f)).1 with
+  | some fld =>
+    rw [hm] at hres
+    obtain ⟨f', rfl, ha⟩ := hres
+    exact ⟨f', _, true, rfl, ha, rfl, rfl⟩
+  | none =>
+    rw [hm] at hres
+    obtain ⟨f', h | h, ha⟩ := hres
+    · subst h; exact ⟨f', out, false, rfl, ha, rfl, rfl⟩
+    · subst h; exact ⟨f', out, false, rfl, ha, rfl, rfl⟩
 
 end GoSSE.GenEquiv
